@@ -605,6 +605,16 @@ def mask_unmodelled(impl, model, ops=None):
                 b = mb.group(1) + " ".join(rb) + mb.group(3)
                 ma = re.match(r"^(h=\d+ rc=\[)(.*?)(\].*)$", a)
                 mb = re.match(r"^(h=\d+ rc=\[)(.*?)(\].*)$", b)
+        if ma and mb and "F:fee:?" in mb.group(2):
+            # a transaction outside the model's op language whose sender cannot pay: both sides answer with the fee failure; the
+            # TxStatus field of the failed receipt carries the discarded contract result, which the model prints as `?`
+            ra, rb = ma.group(2).split(" "), mb.group(2).split(" ")
+            if len(ra) == len(rb):
+                for i, x in enumerate(rb):
+                    if x == "F:fee:?" and ra[i].startswith("F:fee:"):
+                        ra[i] = "F:fee:?"
+                a = ma.group(1) + " ".join(ra) + ma.group(3)
+                ma = re.match(r"^(h=\d+ rc=\[)(.*?)(\].*)$", a)
         if ma and mb and ops is not None and idx < len(ops) and (" eth " in ops[idx]):
             # Ethereum transactions: the receipt is outside the model (blanked); a successful one changes balances the model
             # does not follow, so the comparison of the history stops there
